@@ -169,8 +169,22 @@ class FuncRef:
 
 
 class RePattern:
+    _model = ('match', 'fullmatch', 'search', 'pattern')
+
     def __init__(self, pattern, flags=0):
         self.pattern, self.flags = pattern, flags
+
+    def _c(self):
+        return _re.compile(self.pattern, self.flags)
+
+    def match(self, s):
+        return self._c().match(s)
+
+    def fullmatch(self, s):
+        return self._c().fullmatch(s)
+
+    def search(self, s):
+        return self._c().search(s)
 
     def __repr__(self):
         return f'RePattern({self.pattern!r}, {self.flags})'
@@ -204,7 +218,7 @@ _BUILTINS = {
     'ord': ord, 'chr': chr, 'int': int, 'str': str, 'bytes': bytes, 'bytearray': bytearray,
     'divmod': divmod, 'abs': abs, 'bool': bool, 'float': float, 'any': any, 'all': all,
     'reversed': lambda x: list(reversed(x)), 'enumerate': lambda *a, **k: list(enumerate(*a, **k)),
-    'zip': lambda *a: list(zip(*a)), 'isinstance': isinstance, 'iter': iter, 'next': next,
+    'zip': lambda *a: list(zip(*a)), 'isinstance': isinstance, 'iter': iter, 'next': lambda it, *d: next(iter(it), *d),
     'None': None, 'True': True, 'False': False, 'round': round, 'repr': repr, 'hex': hex,
     'namedtuple': collections.namedtuple,
     'ValueError': ValueError, 'TypeError': TypeError, 'KeyError': KeyError, 'IndexError': IndexError,
@@ -219,6 +233,7 @@ _SAFE_METHODS = {
     bytes: {'find', 'index', 'count', 'lower', 'upper', 'startswith', 'endswith', 'decode', 'isdigit'},
     bytearray: {'find', 'index', 'count', 'extend', 'append', 'pop'},
     tuple: {'index', 'count'},
+    __import__('decimal').Decimal: {'quantize', 'normalize', 'to_integral_value', 'is_finite', 'as_tuple'},
     list: {'index', 'count', 'append', 'extend', 'pop', 'insert', 'remove', 'clear', 'sort', 'reverse', 'copy'},
     frozenset: {'union', 'intersection'},
     set: {'union', 'intersection'},
@@ -246,6 +261,7 @@ _STDLIB_PURE = {   # side-effect-free stdlib helpers the repository imports by n
     ('itertools', 'islice'): lambda it, *a: list(_it.islice(it, *a)),
     ('itertools', 'zip_longest'): lambda *a, **k: list(_it.zip_longest(*a, **k)),
     ('functools', 'reduce'): _ft.reduce, ('functools', 'partial'): _ft.partial,
+    ('operator', 'itemgetter'): operator.itemgetter,
     ('operator', 'lt'): operator.lt, ('operator', 'gt'): operator.gt, ('operator', 'le'): operator.le,
     ('operator', 'ge'): operator.ge, ('operator', 'xor'): operator.xor,
 }
@@ -465,6 +481,15 @@ def _call(node, env):
             kw[k.arg] = ev(k.value, env)
     if isinstance(fn, Sym) or any(isinstance(a, Sym) for a in args):
         return Sym(f'{getattr(fn, "name", getattr(fn, "__name__", fn))}({",".join(str(getattr(a, "name", a)) for a in args)})')
+    if isinstance(fn, FuncRef) and isinstance(fn.node, ast.FunctionDef) and '__forest__' in env:
+        # a module-level helper used to *compute* a table: fold it with the abstract interpreter (data-independent code)
+        from .interp import Interp, FuncVal
+        it = Interp(max_steps=2_000_000)
+        genv = dict(env)         # the module as far as it has been evaluated (a helper can only use what precedes it)
+        for k, v in list(genv.items()):
+            if isinstance(v, FuncRef) and isinstance(v.node, ast.FunctionDef):
+                genv[k] = FuncVal(v.node, genv, it)
+        return FuncVal(fn.node, genv, it)(*args, **kw)
     if fn is None or isinstance(fn, FuncRef):
         raise Unknown(f'call of {ast.unparse(node.func)} is not foldable')
     if 'key' in kw and isinstance(kw['key'], LambdaVal):
@@ -491,7 +516,7 @@ def module_consts(forest, modname, _stack=()):
     if modname in _stack:
         raise Unknown(f'import cycle through {modname}')
     tree = forest.mod(modname)
-    env = {}
+    env = {'__forest__': forest}
     failed = {}
     exprs = {}
     assigned_count = collections.Counter()
@@ -559,6 +584,7 @@ def module_consts(forest, modname, _stack=()):
         if c > 1 and name in env:
             failed[name] = 'assigned more than once at module level'
             del env[name]
+    env.pop('__forest__', None)
     ns = Namespace(modname, env, failed, exprs)
     forest._cache[key] = ns
     return ns
